@@ -1123,7 +1123,7 @@ func checkRemoveAllComposite(c *Ctx, rule string) {
 			c.check(arg == ssa.Value(pathP) && !inLoop(call), rule, key, p.Pos(call.Pos()), "Remove(path) after the children", "the final removal is not applied to path itself")
 		}
 	})
-	c.check(recur == 1 && remChild == 1 && remSelf == 1, rule, "RemoveAll steps", p.Pos(fn.Pos()), "recursion, child removal, self removal", fmt.Sprintf("%d recursive, %d child and %d self removals found", recur, remChild, remSelf))
+	c.check(recur >= 1 && remChild >= 1 && remSelf >= 1, rule, "RemoveAll steps", p.Pos(fn.Pos()), "recursion, child removal, self removal", fmt.Sprintf("%d recursive, %d child and %d self removals found", recur, remChild, remSelf))
 	src := errSources(fn, 0)
 	want := map[string]bool{"call:Stat": true, "call:ReadDir": true, "call:RemoveAll": true, "call:Remove": true}
 	// the first probe must not follow a symlink: RemoveAll(link to a directory) removes the link, like os.RemoveAll;
